@@ -114,7 +114,7 @@ Section FinalRefine.
   Proof.
     intros -> H0 Hlen. unfold Final.process_slashings_reset, Epoch.process_slashings_reset.
     destruct (N.eqb_spec (EPOCHS_PER_SLASHINGS_VECTOR c) 0); [contradiction|].
-    unfold nthN. destruct (nth_error (slashings st) _) eqn:Hn; [reflexivity|].
+    rewrite nthN_nth_error. destruct (nth_error (slashings st) _) eqn:Hn; [reflexivity|].
     apply nth_error_None in Hn. pose proof (N.mod_lt (get_current_epoch E st + 1) _ H0). lia.
   Qed.
 
@@ -127,7 +127,7 @@ Section FinalRefine.
     destruct (N.eqb_spec (EPOCHS_PER_HISTORICAL_VECTOR c) 0); [contradiction|].
     assert (Hp : epoch_previous (get_current_epoch E st + 1) = get_current_epoch E st).
     { unfold epoch_previous, GENESIS_EPOCH. destruct (N.eqb_spec (get_current_epoch E st + 1) 0); lia. }
-    rewrite Hp. unfold nthN.
+    rewrite Hp. rewrite !nthN_nth_error.
     destruct (nth_error (randao_mixes st) (N.to_nat (get_current_epoch E st mod _))) eqn:Hn1.
     2:{ apply nth_error_None in Hn1. pose proof (N.mod_lt (get_current_epoch E st) _ H0). lia. }
     destruct (nth_error (randao_mixes st) (N.to_nat ((get_current_epoch E st + 1) mod _))) eqn:Hn2; [reflexivity|].
